@@ -24,6 +24,7 @@ def cases_for(tier):
     cs += SC.enum_cases(tier, ORACLES, bound=1)
     cs += SC.three_field_cases(tier, ORACLES, bound=1)
     cs += SC.multi_statement_cases(tier, ORACLES, bound=0)
+    cs += SC.deep_expr_cases(tier, ORACLES, bound=1)
     cs += SC.width_cases(tier, ORACLES)
     if tier == 'thorough':
         # dev <= 2 on the quick grammar
